@@ -63,6 +63,7 @@ type Options struct {
 	ConfCap  int           // number of explored paths replayed on the block executor
 	Deadline time.Duration // internal deadline; the run stops at the last completed level
 	Params   map[string]any
+	TraceAll bool // record every transition (dual-world comparison)
 }
 
 type Stats struct {
@@ -82,6 +83,7 @@ type Stats struct {
 	Samples                                  [][]string
 	ConfValidated                            int
 	confPaths                                [][]uint16
+	Trace                                    map[string]string // path -> outcome and successor hash (TraceAll)
 }
 
 type succ struct {
@@ -91,6 +93,7 @@ type succ struct {
 	opname  string
 	viol    *Violation
 	soft    []*Violation
+	key     string
 }
 
 type worker struct {
@@ -216,6 +219,12 @@ func Explore(mk func() Driver, o Options, kf *Findings) *Stats {
 			for _, s := range out[j] {
 				st.Transitions++
 				st.Outcomes[s.outcome]++
+				if o.TraceAll {
+					if st.Trace == nil {
+						st.Trace = map[string]string{}
+					}
+					st.Trace[s.key] = fmt.Sprintf("%s %x %s", s.outcome, s.n.hash[:8], s.opname)
+				}
 				st.PerOpTried[s.opname]++
 				if s.changed {
 					st.Changed++
@@ -370,7 +379,7 @@ func expand(d Driver, w *World, pn pnode) []succ {
 		}
 		opn := d.OpName(n, op)
 		r := d.Step(x, &Node{L: n.L, H: n.H, TS: n.TS, M: n.M.Clone()}, op)
-		s := succ{changed: r.Changed, outcome: r.Outcome, opname: opn}
+		s := succ{changed: r.Changed, outcome: r.Outcome, opname: opn, key: fmt.Sprint(append(append([]uint16{}, pn.path...), uint16(op)))}
 		for _, sv := range r.Soft {
 			sv.Path = append(append([]string{}, names...), opn)
 			for _, p := range pn.path {
